@@ -187,6 +187,26 @@ CLAIMED['C17'] = dict(
          'the model). The temp.csv leak on a failing export was repaired (75447c2).',
     technique='Coq proof (cell-alignment theorem over a list-of-segments model) + vm_compute correspondence against the parsed CSV file')
 
+CLAIMED['C02'] = dict(
+    text='Model of write_main_dataset over the members of the target group (H5/WriteMain.v): argument checks, name cleaning, per side either '
+         'validation + cross-file copy of supplied ancillaries or prefix check -> dimension validation -> size check -> write_ind_val_dsets, IN THE '
+         'CODE\'s ORDER (position side written before the spectroscopic side is validated, main created last), attributes, link_as_main, the final '
+         'check_if_main, wrapped by the clean-up decorator of repair 0a152a0. Theorems: an accepted call returns an object stored under the cleaned '
+         'name that satisfies is_main_spec (composition with the exactness theorem of C06) with the shape / identity of the input; entry (n,i) of the '
+         'freshly written position / spectroscopic matrices is digit k-1-i of n in the mixed radix of the caller\'s sizes (fastest first), values and '
+         'labels aligned, prod(sizes) rows, every index combination exactly once (composition with C08, new position-shape theorem); existing '
+         'members are kept; a rejected call leaves exactly the same members (any rejection point) and, without cross-file copies, the identical '
+         'group, so that a corrected retry behaves as on the original group; refutation witnesses for the unrepaired writer and for the cross-file '
+         'attribute rewrite (known finding). Correspondence: 220 / 3000 generated calls (40 % with one of 34 defects) compared on exception class, '
+         'member names afterwards, shape / labels / units / contents / location of all four links. Independent oracle: structural validator, '
+         'coordinates recomputed from the caller\'s description, dump of the group before / after, retry after each rejection, second dataset '
+         'written from the same descriptor objects.',
+    design='5/C02',
+    note='Trusted: Coq kernel, harness (argument classification flags), h5py/dask/sidpy primitives as mirrored (copy_dataset, validate_string_args, '
+         'write_simple_attrs). Data values are carried as an identity (m_src); their byte-level equality is decided by the oracle, not by a theorem. '
+         'Known finding KF-C02-COPY-ATTRS (sidpy copy_dataset rewrites attributes of an equal pre-existing copy before a later rejection).',
+    technique='Coq proof (append-only invariant of the body + clean-up lemma; composition with C06/C08 theorems) + vm_compute correspondence on generated calls')
+
 NOT_YET = {}
 
 TITLES = {}
